@@ -94,6 +94,7 @@ func (c *Container) EnableContentEncoding(enabled bool) {
 
 // Add a WebService to the Container. It will detect duplicate root paths and exit in that case.
 func (c *Container) Add(service *WebService) *Container {
+	simLock("Container.Add", &c.webServicesLock, true)
 	c.webServicesLock.Lock()
 	defer c.webServicesLock.Unlock()
 
@@ -160,6 +161,7 @@ func (c *Container) Remove(ws *WebService) error {
 		log.Print(errMsg)
 		return errors.New(errMsg)
 	}
+	simLock("Container.Remove", &c.webServicesLock, true)
 	c.webServicesLock.Lock()
 	defer c.webServicesLock.Unlock()
 	// build a new ServeMux and re-register all WebServices
@@ -252,6 +254,7 @@ func (c *Container) dispatch(httpWriter http.ResponseWriter, httpRequest *http.R
 	var route *Route
 	var err error
 	func() {
+		simLock("Container.dispatch", &c.webServicesLock, false)
 		c.webServicesLock.RLock()
 		defer c.webServicesLock.RUnlock()
 		webService, route, err = c.router.SelectRoute(
@@ -332,6 +335,7 @@ func fixedPrefixPath(pathspec string) string {
 
 // serveMux returns the current ServeMux ; Remove replaces it while requests may be served.
 func (c *Container) serveMux() *http.ServeMux {
+	simLock("Container.serveMux", &c.webServicesLock, false)
 	c.webServicesLock.RLock()
 	defer c.webServicesLock.RUnlock()
 	return c.ServeMux
@@ -407,6 +411,7 @@ func (c *Container) Handle(pattern string, handler http.Handler) {
 
 		handler.ServeHTTP(writer, httpRequest)
 	})
+	simLock("Container.Handle", &c.webServicesLock, true)
 	c.webServicesLock.Lock()
 	defer c.webServicesLock.Unlock()
 	c.ServeMux.Handle(pattern, wrapped)
@@ -449,6 +454,7 @@ func (c *Container) Filter(filter FilterFunction) {
 
 // RegisteredWebServices returns the collections of added WebServices
 func (c *Container) RegisteredWebServices() []*WebService {
+	simLock("Container.RegisteredWebServices", &c.webServicesLock, false)
 	c.webServicesLock.RLock()
 	defer c.webServicesLock.RUnlock()
 	result := make([]*WebService, len(c.webServices))
